@@ -37,12 +37,16 @@ META = {
         "print_float's decision logic followed by the parser's float/hex-literal branches returns the same binary64 "
         "bits for every class (NaN payloads, infinities, signed zeros, finite) of every float type, given the "
         "pointwise CPython facts H1-H4 that the harness checks on each sampled bit pattern; dense elements and "
-        "dense arrays round-trip whenever every element does and the splat test is bit-exact (always for integer "
-        "elements).  The unchanged tree REFUTES four clauses (proved as *_refuted, with the strongest *_partial): "
-        "non-ASCII strings and ASCII bytes change attribute kind, non-ASCII dictionary keys do not parse, float "
-        "dense elements printed in hex (NaN, inf, and finite values whose %.9g/%.17g form has no '.') are re-read "
-        "as float(int) / rejected in dense arrays, and a tensor of mixed +0.0/-0.0 prints as a splat.  The model "
-        "is tied to the code by per-kernel differential testing of text, tokens and parsed values."),
+        "dense arrays round-trip whenever every element does and the splat test is exact (proved outright for "
+        "integer/index elements of every width <= 64).  The unchanged tree REFUTES clauses of the property (proved "
+        "as *_refuted with the strongest *_partial / exact characterisation): strings with a non-ASCII character "
+        "come back as bytes and non-ASCII dictionary keys do not parse (kf-3, kf-4), bytes with a text-like payload "
+        "come back as strings (kf-5), float dense elements printed in hex (NaN, inf, finite values whose "
+        "%.9g/%.17g form has no '.') are re-read as float(int) (kf-1) or rejected in dense arrays (kf-2), and a "
+        "tensor of mixed +0.0/-0.0 prints as a splat (kf-6).  The model carries the four proposed repairs as flags "
+        "and the full statements are proved for the repaired variants (C06_string_rt_fixed, C06_dict_rt_fixed, "
+        "C06_dense_float_rt_fixed, C06_densearray_float_rt_fixed).  The model is tied to the code by per-kernel "
+        "differential testing of printed text, token streams and parsed values."),
     "level_note": (
         "Trusted: Coq kernel; hand-written model; correspondence harness; CPython's struct.pack/unpack, float(), "
         "%.5e/%.9g/%.17g/repr and xDSL's own bf16/reduced-precision encoders as oracles (hypotheses are evaluated "
@@ -50,9 +54,10 @@ META = {
         "nesting of dense list brackets, complex elements, locations, affine maps, shaped/function/tuple type "
         "syntax, array/dictionary recursion, DenseResourceAttr, opaque attributes; f80/f128 (constructor raises "
         "NotImplementedError); raw dense payloads with non-normalised padding bits; dense attributes whose element "
-        "count differs from their type's shape; lexing of non-ASCII letters/digits outside string literals."),
+        "count differs from their type's shape; lexing of non-ASCII letters/digits outside string literals; "
+        "dense attributes with reduced-precision (f8/f6/f4/tf32) NaN elements (is_splat's object-identity shortcut)."),
 }
-COQ_TARGETS = ["C06/Enc.vo", "C06/ProofsText.vo", "C06/ProofsNum.vo", "Props/C06.vo"]
+COQ_TARGETS = ["C06/Enc.vo", "C06/ProofsText.vo", "C06/ProofsNum.vo", "C06/ProofsWit.vo", "Props/C06.vo"]
 REQ = ["C06.Model", "C06.Enc"]
 ASSUMPTIONS = [
     "values are built through the public constructors (IntegerAttr, FloatAttr, StringAttr, from_list, ...); strings are surrogate-free",
@@ -64,10 +69,19 @@ TRUSTED = [
     "'%.5e' '%.9g' '%.17g' formatting, repr(float), float(int); bf16 and reduced-precision pack/unpack are xDSL's own encoders",
 ]
 
-# the model is parametrised by the proposed lexer repair (classification of string literals by UTF-8
-# decodability); False = the unchanged tree
-LEXER_FIXED = False
-FX = "true" if LEXER_FIXED else "false"
+# The model is parametrised by the proposed repairs (build/proposed_fixes/C06-<n>.diff); False = the unchanged
+# tree.  When a repair is committed to /repo: set its flag, and mark the listed known findings `fixed`.
+LEXER_FIXED = True         # C06-1: string literals classified by UTF-8 decodability   (C06-kf-3, C06-kf-4)
+DENSE_HEX_FIXED = True     # C06-2: hexadecimal dense elements are bit patterns         (C06-kf-1)
+ARRAY_HEX_FIXED = True     # C06-3: hexadecimal dense-array float elements are accepted (C06-kf-2)
+SPLAT_FIXED = True         # C06-4: is_splat compares the stored bytes                  (C06-kf-6)
+
+
+def cb(b):
+    return "true" if b else "false"
+
+
+FX = cb(LEXER_FIXED)
 
 KF_DENSE_HEX = "C06-kf-1"
 KF_ARRAY_HEX = "C06-kf-2"
@@ -243,9 +257,20 @@ def bytes_holds(c, r):
     return True, ""
 
 
+def stringy_bytes(bs):
+    """does the lexer classify the printed literal of these bytes as a STRING_LIT?"""
+    if not LEXER_FIXED:
+        return all(b < 128 for b in bs)
+    try:
+        bytes(bs).decode()
+        return True
+    except UnicodeDecodeError:
+        return False
+
+
 def bytes_known(c, r):
-    # the printed literal has no non-ASCII payload byte: the lexer classifies it as a STRING_LIT
-    return KF_BYTES if all(b < 128 for b in c["bs"]) and r[2] == [0, c["bs"]] else None
+    # strings and bytes share one syntax: a payload that is ASCII (valid UTF-8 with the lexer repair) is a STRING_LIT
+    return KF_BYTES if stringy_bytes(c["bs"]) and r[2] == [0, c["bs"]] else None
 
 
 def bytes_nontrivial(c, r):
@@ -272,7 +297,7 @@ def string_holds(c, r):
 
 def string_known(c, r):
     # any code point >= 128: its UTF-8 bytes are printed as \XX escapes and the literal is classified BYTES_LIT
-    return KF_STRING if any(ch >= 128 for ch in c["s"]) and not has_surrogate(c["s"]) else None
+    return KF_STRING if not LEXER_FIXED and any(ch >= 128 for ch in c["s"]) and not has_surrogate(c["s"]) else None
 
 
 def string_nontrivial(c, r):
@@ -489,7 +514,7 @@ def dictkey_holds(c, r):
 
 
 def dictkey_known(c, r):
-    return KF_DICTKEY if any(ch >= 128 for ch in c["k"]) and not has_surrogate(c["k"]) else None
+    return KF_DICTKEY if not LEXER_FIXED and any(ch >= 128 for ch in c["k"]) and not has_surrogate(c["k"]) else None
 
 
 def dictkey_nontrivial(c, r):
@@ -561,7 +586,7 @@ def hex_branch(name, x):
 class Tables:
     """CPython oracle tables for the values reachable from `xs` (closed under the model's calls)."""
 
-    def __init__(self, name, xs):
+    def __init__(self, name, xs, with_ofint=False):
         self.name = name
         self.pk, self.up, self.f5, self.f9, self.f17, self.fr, self.sc, self.oi = {}, {}, {}, {}, {}, {}, {}, {}
         todo = set(xs)
@@ -586,7 +611,8 @@ class Tables:
                         continue
                     todo.add(self.sc[t])
                     todo.add(self.sc[t] ^ (1 << 63))
-        for _ in range(4):
+        # pack S, unpack the results, and once more (float_attr = unpack . pack, applied to unpacked values)
+        for rnd in range(3):
             new = set()
             for x in todo:
                 if x in self.pk:
@@ -598,15 +624,14 @@ class Tables:
                 if p not in self.up:
                     self.up[p] = unpack(name, p)
                     new.add(self.up[p])
-                if p not in self.oi:
+                if with_ofint and rnd == 0 and x in xs and hex_branch(name, x) and p not in self.oi:
+                    # to_float re-reads a hexadecimal element as float(int)
                     try:
                         self.oi[p] = b64(float(p))
                         new.add(self.oi[p])
                     except OverflowError:
                         self.oi[p] = -1
             todo = new
-        for i in (0, 1):
-            self.oi.setdefault(i, b64(float(i)))
 
     def coq(self):
         ct = lambda s: coq_text(cps(s))  # noqa: E731
@@ -801,7 +826,7 @@ def dense_tables(et, payloads):
     if "f" not in et:
         return Tables("f64", [])
     name = et["f"]
-    return Tables(name, sorted({unpack(name, p) for p in payloads}))
+    return Tables(name, sorted({unpack(name, p) for p in payloads}), with_ofint=True)
 
 
 def split_dense_body(body):
@@ -873,9 +898,9 @@ def dense_known(c, r):
     et = c["et"]
     if "f" not in et:
         return None
-    if any(hex_branch(et["f"], unpack(et["f"], p)) for p in c["payloads"]):
+    if not DENSE_HEX_FIXED and any(hex_branch(et["f"], unpack(et["f"], p)) for p in c["payloads"]):
         return KF_DENSE_HEX        # an element is printed as a hexadecimal integer and re-read as float(int)
-    if all_zero_mixed(et, c["payloads"]):
+    if not SPLAT_FIXED and all_zero_mixed(et, c["payloads"]):
         return KF_SPLAT            # +0.0 and -0.0 compare equal: printed as a splat of the first element
     return None
 
@@ -885,7 +910,7 @@ def dense_nontrivial(c, r):
 
 
 def dense_coq(c):
-    return (f"dense_case {dense_tables(c['et'], c['payloads']).coq()} {coq_ety(c['et'])} "
+    return (f"dense_case {cb(DENSE_HEX_FIXED)} {cb(SPLAT_FIXED)} {dense_tables(c['et'], c['payloads']).coq()} {coq_ety(c['et'])} "
             f"{zs(c['shape'])} {zs(c['payloads'])}")
 
 
@@ -920,10 +945,14 @@ def rand_shape(rng, maxn=12):
 
 
 ELEM_TYPES = ([{"w": w, "s": s} for w in (1, 3, 8, 16, 17, 32, 33, 64) for s in (0, 1, 2)] + [{"w": -1, "s": 0}]
-              + [{"f": n} for n in MAIN_FT] * 5 + [{"f": "f8E5M2"}, {"f": "tf32"}])
+              + [{"f": n} for n in MAIN_FT] * 5)
+# reduced-precision element types only in the oracle-only family: their unpack returns the shared `math.nan`
+# object, and is_splat's tuple.count has an object-identity shortcut that the model does not describe
+EXTRA_ELEM_TYPES = [{"f": "f8E5M2"}, {"f": "tf32"}, {"f": "f8E4M3FN"}]
 
 
-def dense_cases(rng, n):
+def dense_cases(rng, n, types=None):
+    types = types or ELEM_TYPES
     z32, nz32 = 0, 1 << 31
     nan32 = 0x7FC00000
     out = [
@@ -940,7 +969,7 @@ def dense_cases(rng, n):
         {"et": {"w": 32, "s": 0}, "shape": [0], "payloads": []},
     ]
     for _ in range(n):
-        et = rng.choice(ELEM_TYPES)
+        et = rng.choice(types)
         shape = rand_shape(rng)
         k = math.prod(shape)
         r = rng.random()
@@ -981,13 +1010,13 @@ def densearray_holds(c, r):
 
 def densearray_known(c, r):
     et = c["et"]
-    if "f" in et and any(hex_branch(et["f"], unpack(et["f"], p)) for p in c["payloads"]):
+    if not ARRAY_HEX_FIXED and "f" in et and any(hex_branch(et["f"], unpack(et["f"], p)) for p in c["payloads"]):
         return KF_ARRAY_HEX
     return None
 
 
 def densearray_coq(c):
-    return f"densearray_case {dense_tables(c['et'], c['payloads']).coq()} {coq_ety(c['et'])} {zs(c['payloads'])}"
+    return f"densearray_case {cb(ARRAY_HEX_FIXED)} {dense_tables(c['et'], c['payloads']).coq()} {coq_ety(c['et'])} {zs(c['payloads'])}"
 
 
 def densearray_cases(rng, n):
@@ -1123,9 +1152,9 @@ def attr_known(c, r=None):
     """walk the tree for a sub-attribute in one of the recorded defect classes"""
     def walk(t):
         k = t[0]
-        if k == "str" and any(ch >= 128 for ch in t[1]):
+        if k == "str" and not LEXER_FIXED and any(ch >= 128 for ch in t[1]):
             return KF_STRING
-        if k == "bytes" and all(x < 128 for x in t[1]):
+        if k == "bytes" and stringy_bytes(t[1]):
             return KF_BYTES
         if k == "dense":
             kid = dense_known({"et": t[2], "shape": t[3], "payloads": t[4]}, None)
@@ -1137,9 +1166,9 @@ def attr_known(c, r=None):
                 return kid
         if k == "dict":
             for kk, v in t[1]:
-                if any(ch >= 128 for ch in kk):
+                if not LEXER_FIXED and any(ch >= 128 for ch in kk):
                     return KF_DICTKEY
-        if k == "loc" and t[1] in ("file", "name") and any(ch >= 128 for ch in t[2]):
+        if k == "loc" and t[1] in ("file", "name") and not LEXER_FIXED and any(ch >= 128 for ch in t[2]):
             return KF_STRING       # location file names / names are parsed with parse_optional_str_literal
         for x in t[1:]:
             if isinstance(x, list):
@@ -1163,7 +1192,7 @@ def rand_text(rng, ascii_only=False):
 
 
 def rand_etype(rng):
-    return rng.choice(ELEM_TYPES)
+    return rng.choice(ELEM_TYPES + EXTRA_ELEM_TYPES)
 
 
 def rand_type(rng, depth):
@@ -1229,7 +1258,7 @@ def rand_attr(rng, depth):
     if r < 0.47:
         return ["bytes", [rng.randrange(256) for _ in range(rng.randint(0, 6))]]
     if r < 0.6:
-        c = rng.choice(dense_cases(rng, 2))
+        c = rng.choice(dense_cases(rng, 2, ELEM_TYPES + EXTRA_ELEM_TYPES))
         kind = rng.choice(["tensor", "tensor", "vector", "memref"]) if c["shape"] and all(d > 0 for d in c["shape"]) else "tensor"
         return ["dense", kind, c["et"], c["shape"], c["payloads"]]
     if r < 0.7:
@@ -1288,11 +1317,14 @@ def _flat_ints(t):
 # ---------------------------------------------------------------------------- driver
 def replay_case(ctx, w):
     fam = w.get("family")
+    if fam not in FAMILIES:
+        print("no single-case replay for", fam)
+        return 0
     impl, holds = FAMILIES[fam][:2]
     c = w.get("case", w)
     r = impl(c)
     print("impl result:", r)
-    print("oracle:", holds(c, r) if holds else None)
+    print("oracle:", holds(c, r) if holds else "correspondence-only family")
     return 0
 
 
@@ -1300,6 +1332,7 @@ FAMILIES = {
     "int": (int_impl, int_holds), "bytes": (bytes_impl, bytes_holds), "string": (string_impl, string_holds),
     "symref": (symref_impl, symref_holds), "dictkey": (dictkey_impl, dictkey_holds), "float": (float_impl, float_holds),
     "dense": (dense_impl, dense_holds), "densearray": (densearray_impl, densearray_holds), "attr": (attr_impl, attr_holds),
+    "literal-lexing (malformed stream)": (lit_impl, None), "token-stream": (lex_impl, None),
 }
 
 
@@ -1316,7 +1349,7 @@ def run_specs(ctx: Ctx, specs):
         evs.append(eval_cases(sp.cases, sp.impl, sp.holds, sp.known, sp.nontrivial))
         exprs.append([sp.coq_expr(c) for c in sp.cases])
     flat = [(len(e), fi, ci, e) for fi, es in enumerate(exprs) for ci, e in enumerate(es)]
-    nsh = 16
+    nsh = 8
     # balance the shards by expression size (parsing cost is proportional to it)
     flat.sort(reverse=True)
     bins = [[0, []] for _ in range(nsh)]
@@ -1394,4 +1427,5 @@ def run(ctx: Ctx):
         exhaustive_repr_check(ctx)
     attr_family(ctx, 5000 if thorough else 600)
     ctx.coverage["rule"] = __doc__.split("\n\n", 1)[1][:1500]
-    ctx.coverage["lexer_fixed_model"] = LEXER_FIXED
+    ctx.coverage["model_repair_flags"] = {"C06-1 lexer": LEXER_FIXED, "C06-2 dense hex": DENSE_HEX_FIXED,
+                                          "C06-3 array hex": ARRAY_HEX_FIXED, "C06-4 splat": SPLAT_FIXED}
